@@ -2,6 +2,7 @@ import LenaModel.DriverUtil
 import LenaModel.Model.C17
 import LenaModel.Model.C17Sess
 import LenaModel.Model.C17Ext
+import LenaModel.Model.C17Adv
 /-! Model driver for C17.  Requests:
   {"op":"slice","start":i|null,"stop":i|null,"step":i|null,"xs":[ints]}  -> {"r":[..]} | {"e":"LenaValueError"|"IndexError"}
   {"op":"pyslice",...same, step ≥ 1 or null}                             -> {"r":[..]}
@@ -30,7 +31,11 @@ import LenaModel.Model.C17Ext
         -> {"r":[filled],"stop":i|null,"stopidx":i|null (stopIdx, when stop is a number)} | {"e":"LenaValueError"|"AttributeError"|"TypeError"}
   {"op":"fill_trace_o","args":[..],"xs":[..]}          -> {"out":[..],"r":[filled]} | {"e":..}
   {"op":"slice_inst","args":[..],"ops":[..]}           the call-form variant of slice_inst
-  {"op":"slice_step","start":..,"stop":..,"stepkind":"float","ms":n} -> {"e":"LenaValueError"} (mkSliceStepArg) -/
+  {"op":"slice_step","start":..,"stop":..,"stepkind":"float","ms":n} -> {"e":"LenaValueError"} (mkSliceStepArg)
+ families of Slice objects made with copy.deepcopy (`Model/C17Adv`): object 0 is Slice(*args);
+  {"op":"fam","args":[..],"ops":[ ["c",i] (append a copy of object i) | [i,v] (object i .fill_into(el, v)) | [i,[ints]] (list(object i .run(flow))) ]}
+        -> {"ev":[[i, {"r":[..]}|{"e":..}|"filled"|"skipped"|"stop"|"AttributeError"],..],
+            "of":[eventsOf j ..], "alone":[objEvents (ancestor of j) (lineage of j), its last (number of outcomes of j) outcomes ..]} | {"e":"LenaValueError"|"TypeError"} -/
 open Lean Lena.Drv Lena.C17
 
 def outJson : Option (Out Int) → Json
@@ -146,8 +151,45 @@ def eqReprOp (j : Json) : Json :=
     | _, _ => err "bad eqrepr chain args"
   | _ => err "bad eqrepr element"
 
+/-- an item of the `fam` OPS -/
+def famOp? (j : Json) : Option (FamOp (SliceOp Int)) :=
+  match arr? j with
+  | some #[x, y] =>
+    match str? x, nat? y with
+    | some "c", some i => some (.copy i)
+    | _, _ =>
+      match nat? x with
+      | some i => (sliceOp? y).map (.act i)
+      | none => none
+  | _ => none
+
+def famReply (c : SliceInst) (ops : List (FamOp (SliceOp Int))) : Json :=
+  let evs := famEvents sliceStep [c] ops
+  let n := (famAfter sliceStep [c] ops).length
+  let ids := List.range n
+  Json.mkObj [("ev", ofList (fun (e : Nat × SliceEv Int) => Json.arr #[ofNat e.1, sliceEvJson e.2]) evs),
+    ("of", ofList (fun j => ofList sliceEvJson (eventsOf j evs)) ids),
+    -- the theorems' reading: object j alone, started from its ancestor, on the calls of its lineage
+    ("alone", ofList (fun j => match lineage 1 j ops with
+        | some (_, l) =>
+          -- `family_lineage_events`: the outcomes of the calls on j are the last ones of its ancestor alone on the lineage
+          let all := objEvents sliceStep c l
+          ofList sliceEvJson (all.drop (all.length - (eventsOf j evs).length))
+        | none => Json.null) ids)]
+
 def handle (j : Json) : Json :=
   match str? (getD j "op") with
+  | some "fam" =>
+    match (arr? (getD j "args")).bind (fun a => a.toList.mapM optInt),
+        (arr? (getD j "ops")).bind (fun a => a.toList.mapM famOp?) with
+    | some args, some ops =>
+      match argsTriple args with
+      | none => Json.mkObj [("e", "TypeError")]
+      | some (a, b, s) =>
+        match mkSliceInst a b s with
+        | none => Json.mkObj [("e", "LenaValueError")]
+        | some c => famReply c ops
+    | _, _ => err "bad fam args"
   | some "slice" =>
     match optInt (getD j "start"), optInt (getD j "stop"), optInt (getD j "step"), intList? (getD j "xs") with
     | some a, some b, some s, some xs => outJson (sliceRun (mkSlice a b s) xs)
